@@ -227,6 +227,8 @@ fn judge(case: &Case, outs: &[Out], mut rep: Option<&mut Reporter>) -> (Vec<Find
     let monotone_case = case.events.windows(2).all(|w| w[0].t <= w[1].t);
     for (h, host) in case.hosts.iter().enumerate() {
         let class = classify(host);
+        // one finding per shape and host is enough (a broken bypass would otherwise yield one per call)
+        let (mut bypass_reported, mut nonroutable_reported) = (false, false);
         let mut log: Vec<LogEntry> = vec![];
         let mut last_ok_t: Option<u64> = None; // time of the last bucket-reaching call that returned
         let mut prev_t: Option<u64> = None; // time of the previous bucket-reaching call
@@ -252,8 +254,9 @@ fn judge(case: &Case, outs: &[Out], mut rep: Option<&mut Reporter>) -> (Vec<Find
                 }
                 match out {
                     Out::Admitted => {}
+                    Out::Limited if bypass_reported => cnt(rep, "violating-calls-not-reported-individually"),
                     Out::Limited => findings.push(Finding {
-                        kind: Kind::Violation,
+                        kind: { bypass_reported = true; Kind::Violation },
                         sig: "C17/bypassed-node-limited".into(),
                         detail: json!({"event": idx, "host": host.to_string(), "nid_index": e.nid}),
                         host: h,
@@ -278,8 +281,9 @@ fn judge(case: &Case, outs: &[Out], mut rep: Option<&mut Reporter>) -> (Vec<Find
                     }
                     match out {
                         Out::Admitted => {}
+                        Out::Limited if nonroutable_reported => cnt(rep, "violating-calls-not-reported-individually"),
                         Out::Limited => findings.push(Finding {
-                            kind: Kind::Violation,
+                            kind: { nonroutable_reported = true; Kind::Violation },
                             sig: format!("C17/non-routable-address-limited/{c}"),
                             detail: json!({"event": idx, "host": host.to_string()}),
                             host: h,
